@@ -714,7 +714,39 @@ def replay_foreign(module, which, text):
     return False
 
 
+def replay_b32(data=None, n=0):
+    """passlib's base32 helpers on concrete keys: canonical, lower-case and mistyped (8 for B, 0 for O) text, as str and as
+    bytes, with and without padding, decode to the key"""
+    import base64
+    import random
+    import passlib.utils.binary as B
+    rnd = random.Random(5)
+    keys = [bytes(data)] if data else []
+    keys += [bytes(rnd.randrange(256) for _ in range(k)) for k in (n or 5, 1, 2, 3, 4, 5, 6, 10, 16, 20)] + [b"\x08\x42\x10\x84\x21" * 2, b"\x73\x9c\xe7\x39\xce"]
+    for k in keys:
+        std = base64.b32encode(k).decode().rstrip("=")
+        try:
+            enc = B.b32encode(k)
+        except Exception as e:
+            return "b32encode(%r) raises %r" % (k, e)
+        if enc != std:
+            return "b32encode(%r) = %r, RFC 4648 gives %r" % (k, enc, std)
+        typo = std.replace("B", "8").replace("O", "0")
+        for form in (std, std.lower(), typo, typo.lower(), std + "=" * (-len(std) % 8)):
+            for val in (form, form.encode("ascii")):
+                try:
+                    got = B.b32decode(val)
+                except Exception as e:
+                    return "b32decode(%r) raises %r" % (val, e)
+                if got != k:
+                    return "b32decode(%r) = %r, expected %r" % (val, got, k)
+    return False
+
+
 def _badw(which, module, what, n, data=None):
+    if which == "b32":
+        return violation("%s.%s: %s" % (module, which, what), "b64w:%s:%s" % (module, which),
+                         {"module": "harness.c12", "func": "replay_b32", "args": {"data": data, "n": n}})
     return violation("%s.%s: %s" % (module, which, what), "b64w:%s:%s" % (module, which),
                      {"module": "harness.c12", "func": "replay_wrappers", "args": {"module": module, "data": data, "n": n}})
 
